@@ -262,6 +262,13 @@ func visitInstr(fr *frame, instr ssa.Instruction) continuation {
 		store(mustDeref(instr.Addr.Type()), addr.(*value), fr.get(instr.Val))
 
 	case *ssa.If:
+		if !NoSwitchMerge {
+			if _, symbolic := fr.get(instr.Cond).(*SV); symbolic {
+				if ch := switchChain(fr.block); ch != nil && i.execSwitchChain(fr, ch) {
+					return kJump
+				}
+			}
+		}
 		succ := 1
 		if i.truthAt(fr.get(instr.Cond), instr) {
 			succ = 0
@@ -792,3 +799,6 @@ func fprintPanic(p interface{}) string {
 }
 
 var _ = os.Stderr
+
+// NoSwitchMerge disables switch-chain merging (swchain.go), for comparison runs.
+var NoSwitchMerge = os.Getenv("GOSYM_NO_SWITCH_MERGE") != ""
